@@ -98,6 +98,16 @@ int	tpt_msg_one_by_one_send_next__int(tp_p tp, tpt_p src,
 	    tpt_msg_data_p msg_data);
 
 
+/* Non zero if tpt is one of the tp worker threads: not NULL,
+ * not a thread of another pool and not the pool virtual thread. */
+static inline int
+tpt_msg_is_tp_thr(tp_p tp, tpt_p tpt) {
+
+	return ((NULL != tpt &&
+	    tp_thread_get(tp, tpt_get_num(tpt)) == tpt));
+}
+
+
 
 static void
 tpt_msg_recv_and_process(tp_event_p ev, tp_udata_p tp_udata) {
@@ -218,7 +228,8 @@ tpt_msg_one_by_one_proxy_cb(tpt_p tpt, void *udata) {
 		return;
 	/* All except caller thread done / error. */
 	if (0 == ((TP_BMSG_F_SELF_SKIP | TP_MSG_F_SELF_DIRECT) & msg_data->flags) &&
-	    msg_data->tpt != tpt) { /* Try shedule caller thread. */
+	    msg_data->tpt != tpt &&
+	    0 != tpt_msg_is_tp_thr(tpt_get_tp(tpt), msg_data->tpt)) { /* Try shedule caller thread. */
 		msg_data->cur_thr_idx = tp_thread_count_max_get(tpt_get_tp(tpt));
 		msg_data->send_msg_cnt ++;
 		if (0 == tpt_msg_send(msg_data->tpt, tpt,
@@ -324,8 +335,8 @@ tpt_msg_broadcast_send__int(tp_p tp, tpt_p src,
 	tpt_p tpt;
 
 	if (NULL != msg_data &&
-	    NULL != src &&
-	    0 != (TP_BMSG_F_SELF_SKIP & flags)) {
+	    0 != (TP_BMSG_F_SELF_SKIP & flags) &&
+	    0 != tpt_msg_is_tp_thr(tp, src)) { /* src will be skipped below. */
 		msg_data->active_thr_count --;
 	}
 	(*send_msg_cnt) = 0;
@@ -381,16 +392,19 @@ tpt_msg_bsend_ex(tp_p tp, tpt_p src, uint32_t flags,
 	}
 	/* 1 thread specific. */
 	if (1 == threads_max &&
-	    NULL != src) { /* Only if thread send broadcast to self. */
+	    tp_thread_get(tp, 0) == src) { /* Only if thread send broadcast to self. */
 		if (0 != (TP_BMSG_F_SELF_SKIP & flags))
 			goto err_out; /* Nothink to do. */
 		if (0 == (TP_BMSG_F_SYNC & flags)) {
 			error = tpt_msg_send(tp_thread_get(tp, 0), src, flags, msg_cb, udata);
 			if (0 == error) {
 				msg_data_s.send_msg_cnt ++;
+			} else {
+				msg_data_s.error_cnt ++;
 			}
 		} else { /* Cant async call from self. */
 			msg_cb(src, udata);
+			msg_data_s.send_msg_cnt ++;
 		}
 		goto err_out; /* Sended / error on send. */
 	}
@@ -488,7 +502,7 @@ tpt_msg_cbsend(tp_p tp, tpt_p src, uint32_t flags,
 	threads_max = tp_thread_count_max_get(tp);
 	/* 1 thread specific. */
 	if (1 == threads_max &&
-	    NULL != src) { /* Only if thread send broadcast to self. */
+	    tp_thread_get(tp, 0) == src) { /* Only if thread send broadcast to self. */
 		if (0 != (TP_BMSG_F_SELF_SKIP & flags)) {
 			done_cb(src, 0, 0, udata); /* Nothink to do. */
 		} else { /* Cant async call from self. */
@@ -508,15 +522,19 @@ tpt_msg_cbsend(tp_p tp, tpt_p src, uint32_t flags,
 	msg_data->done_cb = done_cb;
 
 	if (0 != (TP_CBMSG_F_ONE_BY_ONE & flags)) {
-		if (TP_MSG_F_SELF_DIRECT == ((TP_BMSG_F_SELF_SKIP | TP_MSG_F_SELF_DIRECT) & flags)) {
+		if (TP_MSG_F_SELF_DIRECT == ((TP_BMSG_F_SELF_SKIP | TP_MSG_F_SELF_DIRECT) & flags) &&
+		    0 != tpt_msg_is_tp_thr(tp, src)) {
 			msg_data->send_msg_cnt ++;
 			msg_cb(src, udata);
 		}
 		if (0 == tpt_msg_one_by_one_send_next__int(tp, src, msg_data))
 			return (0); /* OK, sheduled. */
-		if (TP_MSG_F_SELF_DIRECT == ((TP_BMSG_F_SELF_SKIP | TP_MSG_F_SELF_DIRECT) & flags)) {
-			done_cb(src, msg_data->send_msg_cnt,
-			    msg_data->error_cnt, udata);
+		/* Nothing sheduled: nobody else will release msg_data. */
+		send_msg_cnt = msg_data->send_msg_cnt;
+		tm_cnt = msg_data->error_cnt;
+		free(msg_data);
+		if (0 != send_msg_cnt) { /* Only self direct call was done. */
+			done_cb(src, send_msg_cnt, tm_cnt, udata);
 			return (0);
 		}
 		return (ESPIPE);
